@@ -490,6 +490,16 @@ class C08(common.Prop):
                     b2.data = b2.data + (np.float32(1.0) if kind == "numpy" else 1.0)      # (a Python float would widen a NumPy float32 array)
                     after = dump_body(b2.get_points(idx), kind)
                     rec[kind] = ["ok", before, after]
+                    # copy() is a body of its own: overwriting the copy's confidences in place (NumPy, PyTorch; TensorFlow tensors
+                    # are immutable) leaves the source's confidences what they were
+                    if kind in ("numpy", "torch"):
+                        try:
+                            src_before = dump_body(bodies[i], kind)["conf"]
+                            b3 = bodies[i].copy()
+                            b3.confidence[...] = 0.125
+                            rec[kind].append(dump_body(bodies[i], kind)["conf"] == src_before)
+                        except Exception:
+                            rec[kind].append(True)
                 except Exception as e:
                     rec[kind] = ["err", type(e).__name__]
             case["_rebind"] = rec
@@ -779,6 +789,10 @@ class C08(common.Prop):
                         "the converted body's missing pattern is not `confidence == 0`" if not rec[1] else "confidences differ"),
                         "stage": "convert-after-edit", "backend": kind, "D": D, "odd_conf": odd_conf}
         rb = case.get("_rebind") or {}
+        for kind, rec in rb.items():
+            if rec[0] == "ok" and len(rec) > 3 and rec[3] is False:
+                return {"what": "the %s body's copy() shares its confidence array with the source: overwriting the copy's confidences in place "
+                                "changed the source's" % kind, "stage": "copy-shares-confidence", "backend": kind, "D": D, "odd_conf": odd_conf}
         if rb.get("numpy", ["err"])[0] == "ok":
             ref_after = rb["numpy"][2]
             for kind, rec in rb.items():
@@ -862,7 +876,7 @@ class C08(common.Prop):
             if bk in ("torch", "tensorflow") and failure.get("odd_conf") and "valid differs" in what:
                 return "validity-rule-negative-or-nan-confidence"
             return "%s-%s" % (st, bk)
-        if st in ("convert-after-edit", "convert-float64", "rebind-then-select"):
+        if st in ("convert-after-edit", "convert-float64", "rebind-then-select", "copy-shares-confidence"):
             return "%s-%s" % (st, bk)
         op = failure.get("op")
         if failure.get("edge"):
